@@ -26,6 +26,7 @@ pub struct Typer
 	functions: std::collections::HashMap<u32, Function>,
 	structures: std::collections::HashMap<u32, Structure>,
 	calculated_named_lengths: std::collections::HashMap<u32, usize>,
+	opaque_structures: std::collections::HashSet<u32>,
 	contextual_type: Option<Poisonable<ValueType>>,
 }
 
@@ -142,6 +143,37 @@ impl Typer
 	pub fn resolve_named_length(&mut self, resolution_id: u32, value: usize)
 	{
 		self.calculated_named_lengths.insert(resolution_id, value);
+	}
+
+	/// Whether a value of this type would hold an opaque structure, of which
+	/// nothing is known (in particular not its size), other than by address.
+	fn holds_opaque_structure(&self, value_type: &ValueType) -> bool
+	{
+		match value_type
+		{
+			ValueType::Struct { identifier } =>
+			{
+				self.opaque_structures.contains(&identifier.resolution_id)
+			}
+			ValueType::Array { element_type, .. }
+			| ValueType::ArrayWithNamedLength { element_type, .. }
+			| ValueType::Slice { element_type }
+			| ValueType::SlicePointer { element_type }
+			| ValueType::EndlessArray { element_type }
+			| ValueType::Arraylike { element_type } =>
+			{
+				self.holds_opaque_structure(element_type)
+			}
+			// Through a pointer or view an opaque structure itself is
+			// fine, but not an array of them: its elements lack a size.
+			ValueType::Pointer { deref_type }
+			| ValueType::View { deref_type } => match deref_type.as_ref()
+			{
+				ValueType::Struct { .. } => false,
+				deref_type => self.holds_opaque_structure(deref_type),
+			},
+			_ => false,
+		}
 	}
 
 	fn put_symbol(
@@ -693,11 +725,15 @@ fn forward_declare_structure(declaration: &Declaration, typer: &mut Typer)
 			name,
 			members: _,
 			structural_type,
-			flags: _,
+			flags,
 			depth: _,
 			location_of_declaration: _,
 		} =>
 		{
+			if flags.contains(DeclarationFlag::OpaqueStruct)
+			{
+				typer.opaque_structures.insert(name.resolution_id);
+			}
 			typer.forward_declare_symbol(name, structural_type.clone());
 		}
 		Declaration::Import { .. } => (),
@@ -729,7 +765,9 @@ fn declare(declaration: Declaration, typer: &mut Typer) -> Declaration
 					&location_of_declaration,
 				)
 				{
-					Ok(vt) if !vt.can_be_constant() =>
+					Ok(vt)
+						if !vt.can_be_constant()
+							|| typer.holds_opaque_structure(&vt) =>
 					{
 						assert!(vt.is_wellformed(), "{vt:?}");
 						Err(Poison::Error(Error::IllegalConstantType {
@@ -782,6 +820,17 @@ fn declare(declaration: Declaration, typer: &mut Typer) -> Declaration
 				&location_of_return_type,
 				&location_of_declaration,
 			);
+			let return_type = match return_type
+			{
+				Ok(value_type) if typer.holds_opaque_structure(&value_type) =>
+				{
+					Err(Poison::Error(Error::IllegalReturnType {
+						value_type,
+						location: location_of_return_type.clone(),
+					}))
+				}
+				return_type => return_type,
+			};
 
 			let rv_identifier = name.return_value();
 			let rv_type = Some(return_type.clone());
@@ -823,6 +872,17 @@ fn declare(declaration: Declaration, typer: &mut Typer) -> Declaration
 				&location_of_return_type,
 				&location_of_declaration,
 			);
+			let return_type = match return_type
+			{
+				Ok(value_type) if typer.holds_opaque_structure(&value_type) =>
+				{
+					Err(Poison::Error(Error::IllegalReturnType {
+						value_type,
+						location: location_of_return_type.clone(),
+					}))
+				}
+				return_type => return_type,
+			};
 
 			let rv_identifier = name.return_value();
 			let rv_type = Some(return_type.clone());
@@ -1123,6 +1183,7 @@ impl Member
 				let is_legal = match &value_type
 				{
 					Err(_) => true,
+					Ok(vt) if typer.holds_opaque_structure(vt) => false,
 					Ok(vt) if in_word => vt.can_be_word_member(),
 					Ok(vt) if in_struct => vt.can_be_struct_member(),
 					Ok(_) => true,
@@ -1187,7 +1248,14 @@ impl Parameter
 				);
 				match value_type
 				{
-					Ok(vt) if vt.can_be_parameter() => Ok(vt),
+					// A structure parameter is a view, also of an opaque one.
+					Ok(vt)
+						if vt.can_be_parameter()
+							&& (matches!(vt, ValueType::Struct { .. })
+								|| !typer.holds_opaque_structure(&vt)) =>
+					{
+						Ok(vt)
+					}
 					Ok(vt) => match &self.name
 					{
 						Ok(name) =>
@@ -1294,7 +1362,8 @@ impl Analyzable for Statement
 				location,
 			} =>
 			{
-				let declared_type = declared_type.analyze(typer);
+				let declared_type =
+					analyze_variable_type(declared_type, &name, typer);
 				let recoverable_error =
 					typer.put_symbol(&name, Some(declared_type.clone()));
 				let declared_type =
@@ -1391,7 +1460,8 @@ impl Analyzable for Statement
 				location,
 			} =>
 			{
-				let declared_type = declared_type.analyze(typer);
+				let declared_type =
+					analyze_variable_type(declared_type, &name, typer);
 				let recoverable_error =
 					typer.put_symbol(&name, Some(declared_type.clone()));
 				let value_type = match recoverable_error
@@ -2010,7 +2080,9 @@ impl Analyzable for Expression
 				location,
 			} => match analyze_type(queried_type, typer)
 			{
-				Ok(queried_type) if queried_type.can_be_sized() =>
+				Ok(queried_type)
+					if queried_type.can_be_sized()
+						&& !typer.holds_opaque_structure(&queried_type) =>
 				{
 					Expression::SizeOf {
 						queried_type,
@@ -3291,6 +3363,27 @@ impl Analyzable for Poisonable<ValueType>
 	fn analyze(self, typer: &mut Typer) -> Self
 	{
 		self.and_then(|x| analyze_type(x, typer))
+	}
+}
+
+/// The type that a variable is declared with.
+fn analyze_variable_type(
+	declared_type: Poisonable<ValueType>,
+	name: &Identifier,
+	typer: &mut Typer,
+) -> Poisonable<ValueType>
+{
+	match declared_type.analyze(typer)
+	{
+		Ok(value_type) if typer.holds_opaque_structure(&value_type) =>
+		{
+			// An opaque structure can only be used through a pointer.
+			Err(Poison::Error(Error::IllegalVariableType {
+				value_type,
+				location: name.location.clone(),
+			}))
+		}
+		declared_type => declared_type,
 	}
 }
 
